@@ -8,7 +8,7 @@ sys.path.insert(0, os.path.join(os.path.dirname(os.path.abspath(__file__)), ".."
 from common import REPO, scratch, log  # noqa: E402
 
 
-def dump_mir(package, features=(), no_default_features=False, tag=None):
+def dump_mir(package, features=(), no_default_features=False, tag=None, debug_assertions=False):
     """cargo +nightly rustc -p <package> --lib -- --emit=mir ; cargo's fingerprinting makes the
     artifact follow /repo's current sources (rebuilt whenever they change)."""
     key = tag or (package + ("-" + "-".join(features) if features else ""))
@@ -18,7 +18,10 @@ def dump_mir(package, features=(), no_default_features=False, tag=None):
         cmd.append("--no-default-features")
     if features:
         cmd += ["--features", ",".join(features)]
-    cmd += ["--", "--emit=mir", "-C", "debug-assertions=off", "-C", "overflow-checks=on"]
+    cmd += ["--", "--emit=mir", "-C", "debug-assertions=%s" % ("on" if debug_assertions else "off"), "-C", "overflow-checks=on"]
+    if debug_assertions:
+        # keep the code's own debug_assert!s, drop rustc's pointer alignment/null instrumentation of raw derefs
+        cmd += ["-Zmir-enable-passes=-CheckAlignment,-CheckNull,-CheckEnums"]
     env = dict(os.environ)
     env["CARGO_TARGET_DIR"] = tdir
     env["CARGO_NET_OFFLINE"] = "true"
